@@ -5,6 +5,6 @@ CONSTANTS
   MaxLen = 2
   MaxKeys = 3
   MaxOps = 0
-  BlockLens = {1, 4000}
+  BlockLens = {0, 4000}
   ValueKinds = {"u64"}
 CHECK_DEADLOCK FALSE
